@@ -312,14 +312,14 @@ def models(ctx):
                     "victim = oldest logical-clock stamp, order = recency")
     sfx = "q" if q else "t"
     ctx.tlc_mc("MC_LruListMech", cfg="MC_LruListMech_fixed_%s.cfg" % sfx, timeout=1500,
-               note="mechanism of lru_map.rs with the repaired clear(): refines Lru.tla, no node lost, put never refused")
+               note="mechanism of lru_map.rs (clear() as repaired by 7d1dfdf): refines Lru.tla, no node lost, put never refused")
     ctx.tlc_mc("MC_LruListMech", cfg="MC_LruListMech_code_refines_%s.cfg" % sfx, timeout=1500,
-               note="mechanism of lru_map.rs as written: refines Lru.tla (a refused put changes nothing)")
+               note="mechanism with clear() as it was before 7d1dfdf (fixed finding C17-KF4): still refines Lru.tla (a refused put changes nothing)")
     if not q:
         ctx.tlc_mc("MC_LruListMech", cfg="MC_LruListMech_code_lost_q.cfg", expect="NoLostNodes",
-                   note="mechanism as written: after clear() free + in-use nodes < capacity")
+                   note="clear() before 7d1dfdf: after clear() free + in-use nodes < capacity")
     ctx.tlc_mc("MC_LruListMech", cfg="MC_LruListMech_code_refusal_q.cfg", expect="NoSpuriousRefusal",
-               note="mechanism as written: clear() loses free nodes, a later put is refused although there is room (C17-KF4, patch C17-1)")
+               note="clear() before 7d1dfdf loses free nodes, a later put is refused although there is room (fixed finding C17-KF4)")
 
 
 def merge_b2(ctx, gens, subject=None, sample=None, max_mismatch=None):
